@@ -273,7 +273,8 @@ if __name__ == "__main__":
                     later = dict(rng.choice([{}, {}, {"PS": 0.5}]))
                     if name in ("Ring", "FPR", "CWA", "FPRGaussian", "FPRGaussian_callable"):
                         later["wl"] = 1.25            # blocks without a default wavelength
-                    out.append({"block": name, "first": first, "later": later, "bare_first": rng.random() < 0.3})
+                    out.append({"block": name, "first": first, "later": later, "bare_first": rng.random() < 0.3,
+                                "via_copy": rng.random() < 0.35})
             return out
 
         @staticmethod
@@ -301,8 +302,16 @@ if __name__ == "__main__":
                 if d["bare_first"]:
                     m.solve(**{k: v for k, v in kw.items() if k != "PS"})
                 A = self._circuit(m)
-                A.solve(**kw)
-                seq = "Obs " + clist([mat(self._circuit(m).solve(**d["later"]))])      # built AFTER the solves of A
+                if d.get("via_copy"):
+                    # a shallow copy of circuit A (it shares the model objects) is solved with the explicit values; the
+                    # ORIGINAL, solved afterwards, must answer as if the copy had never been solved
+                    twin = A.shallow_copy()
+                    twin.solve(**kw)
+                    twin.solve(**{k: v[:1] for k, v in kw.items()})
+                    seq = "Obs " + clist([mat(A.solve(**d["later"]))])
+                else:
+                    A.solve(**kw)
+                    seq = "Obs " + clist([mat(self._circuit(m).solve(**d["later"]))])      # built AFTER the solves of A
             except Exception:
                 seq = "Raised"
             return "{| bk_scalar := %s; bk_sweep := %s |}" % (clist([fresh]), seq)
@@ -311,7 +320,7 @@ if __name__ == "__main__":
             return True
 
         def classify(self, d):
-            return d["block"] + ("/bare_first" if d["bare_first"] else "")
+            return d["block"] + ("/bare_first" if d["bare_first"] else "") + ("/via_copy" if d.get("via_copy") else "")
 
     import c02
 
